@@ -6,15 +6,21 @@
 (* unchanged (same methods, same URL match, same policyRef, same policy content) over to the     *)
 (* new generation and creates fresh limiters for all other rules.                                *)
 (*                                                                                              *)
-(* The limiter itself is specified in module RateLimiter.  Here every policy has a refresh       *)
-(* period of one hour and the whole behaviour happens at the very beginning of the first cycle,  *)
-(* where - theorem FrozenCapacity of RateLimiter - the contract leaves no freedom: exactly the   *)
-(* first Cap = L * (T \div P + 1) requests are admitted.  So a limiter is a counter `used`.      *)
+(* The limiter itself is specified in module RateLimiter.  Here the whole behaviour happens at    *)
+(* the very beginning of every limiter's first refresh cycle (the harness uses a period of one   *)
+(* hour, or - for policies that leave the period to its default of 10 ms - checks with its own   *)
+(* clock that it was fast enough), where - theorem FrozenCapacity of RateLimiter - the contract  *)
+(* leaves no freedom: exactly the first Cap = L * (T \div P + 1) requests are admitted.  So a     *)
+(* limiter is a counter `used`.                                                                  *)
+(* A policy may omit fields: timeoutDuration (tmo = -1) defaults to 100 ms, limitRefreshPeriod   *)
+(* (per = "d") to 10 ms (and limitForPeriod, L = 0, to 50 - unreachable, validation wants >= 1).  "Same policy" compares what   *)
+(* is written in the spec, as the code does, so a byte-identical spec is always "unchanged".     *)
 (* Strings the specification looks into (paths) are sequences of one-character strings.          *)
 EXTENDS Integers, Sequences, FiniteSets
 
-CONSTANTS Specs,      \* filter specs: [id, def, pols : Seq([name, L, th]), urls : Seq([ms, exact, prefix, ref])]
+CONSTANTS Specs,      \* filter specs: [id, fam, def, pols : Seq([name, L, tmo, per]), urls : Seq([ms, exact, prefix, ref])]
           Requests,   \* [m, path]
+          Bursts,     \* sizes of request bursts (one step = that many identical requests)
           MaxReq, MaxReload
 
 VARIABLES spec,    \* spec of the live generation
@@ -36,14 +42,18 @@ Match(u, rq) ==
 
 (* bindPolicyToURL: the first policy with the referenced (or the default) name *)
 PolName(s, u) == IF u.ref = "" THEN s.def ELSE u.ref
-NoPol == [name |-> "", L |-> 0, th |-> 0]
+NoPol == [name |-> "", L |-> 0, tmo |-> 0, per |-> ""]
 PolNamed(s, name) ==
     LET I == {i \in 1..Len(s.pols) : s.pols[i].name = name}
     IN  IF I = {} THEN NoPol ELSE s.pols[CHOOSE i \in I : \A j \in I : i <= j]
 PolOf(s, u) == PolNamed(s, PolName(s, u))
 
-(* P = 60 min, T = th * 30 min  =>  horizon th \div 2 *)
-Cap(p) == p.L * (p.th \div 2 + 1)
+(* effective policy (URLRule.createRateLimiter), durations in milliseconds; an explicit timeout *)
+(* is written as tmo half-periods                                                               *)
+EffL(p)  == IF p.L = 0 THEN 50 ELSE p.L
+PerMs(p) == IF p.per = "d" THEN 10 ELSE 3600000
+TmoMs(p) == IF p.tmo = -1 THEN 100 ELSE p.tmo * (PerMs(p) \div 2)
+Cap(p)   == EffL(p) * (TmoMs(p) \div PerMs(p) + 1)
 
 (* URLRule.DeepEqual and isSamePolicy *)
 SameRule(u, v) == u.ms = v.ms /\ u.exact = v.exact /\ u.prefix = v.prefix /\ u.ref = v.ref
@@ -62,18 +72,19 @@ FirstHit(rq) ==
     LET I == {i \in 1..Len(spec.urls) : Match(spec.urls[i], rq)}
     IN  IF I = {} THEN 0 ELSE CHOOSE i \in I : \A j \in I : i <= j
 
-(* Handle *)
-Handle(rq) ==
+(* Handle, k times in a row with the same request (k = 1: a single request).  `adm` of the k    *)
+(* are admitted; the others get (rateLimited, 429)                                              *)
+Min(a, b) == IF a < b THEN a ELSE b
+Serve(rq, k) ==
     /\ nreq < MaxReq /\ nreq' = nreq + 1
     /\ LET h == FirstHit(rq) IN
        IF h = 0
-       THEN /\ last' = [a |-> "req", m |-> rq.m, path |-> rq.path, hit |-> 0, res |-> "", code |-> 0]
+       THEN /\ last' = [a |-> "req", m |-> rq.m, path |-> rq.path, k |-> k, hit |-> 0, adm |-> k]
             /\ UNCHANGED used
        ELSE LET id == lims[h]
-                ok == used[id] < Cap(PolOf(spec, spec.urls[h]))
-            IN  /\ used' = IF ok THEN [used EXCEPT ![id] = @ + 1] ELSE used
-                /\ last' = [a |-> "req", m |-> rq.m, path |-> rq.path, hit |-> h,
-                            res |-> IF ok THEN "" ELSE "rateLimited", code |-> IF ok THEN 0 ELSE 429]
+                adm == Min(k, Cap(PolOf(spec, spec.urls[h])) - used[id])
+            IN  /\ used' = [used EXCEPT ![id] = @ + adm]
+                /\ last' = [a |-> "req", m |-> rq.m, path |-> rq.path, k |-> k, hit |-> h, adm |-> adm]
     /\ UNCHANGED <<spec, lims, nl, nrel>>
 
 (* reload(previousGeneration): rule by rule, first unchanged rule of the old generation wins *)
@@ -83,6 +94,7 @@ Carry(s, j) ==
 
 Reload(s) ==
     /\ nrel < MaxReload /\ nrel' = nrel + 1
+    /\ s.fam = spec.fam          \* (exploration only: keep to related specs)
     /\ LET fresh == {j \in 1..Len(s.urls) : Carry(s, j) = 0}
            rank(j) == Cardinality({k \in fresh : k <= j})
            newl == [j \in 1..Len(s.urls) |-> IF Carry(s, j) = 0 THEN nl + rank(j) ELSE lims[Carry(s, j)]]
@@ -100,7 +112,7 @@ Init ==
     /\ nl = Len(spec.urls) /\ nreq = 0 /\ nrel = 0
     /\ last = [a |-> "init", spec |-> spec]
 
-Next == (\E rq \in Requests : Handle(rq)) \/ (\E s \in Specs : Reload(s))
+Next == (\E rq \in Requests, k \in {1} \cup Bursts : Serve(rq, k)) \/ (\E s \in Specs : Reload(s))
 Spec == Init /\ [][Next]_vars
 
 -----------------------------------------------------------------------------
@@ -108,17 +120,16 @@ TypeOK == Len(lims) = Len(spec.urls) /\ \A j \in 1..Len(lims) : lims[j] \in DOMA
 
 (* requests to URLs that match no rule are never limited (and consume nothing) *)
 UnmatchedNeverLimited ==
-    [][(last'.a = "req" /\ last'.hit = 0) => (last'.res = "" /\ used' = used)]_vars
+    [][(last'.a = "req" /\ last'.hit = 0) => (last'.adm = last'.k /\ used' = used)]_vars
 
-(* a rejection is 429 + rateLimited and happens only when the matched rule's permits are used up; *)
-(* a request that finds a spare permit is admitted; only the first matching rule is charged       *)
+(* a request is rejected (429, rateLimited) only when the matched rule's permits are used up; a   *)
+(* request that finds a spare permit is admitted; only the first matching rule is charged        *)
 RejectOnlyIfExhausted ==
     [][(last'.a = "req" /\ last'.hit > 0) =>
           LET id == lims[last'.hit]
-              full == used[id] >= Cap(PolOf(spec, spec.urls[last'.hit]))
-          IN  /\ (last'.res = "rateLimited") = full
-              /\ (last'.code = 429) = full
-              /\ \A x \in DOMAIN used : used'[x] = used[x] + (IF x = id /\ ~full THEN 1 ELSE 0)]_vars
+              left == Cap(PolOf(spec, spec.urls[last'.hit])) - used[id]
+          IN  /\ last'.adm = Min(last'.k, left)
+              /\ \A x \in DOMAIN used : used'[x] = used[x] + (IF x = id THEN last'.adm ELSE 0)]_vars
 
 NeverOverCap ==
     \A j \in 1..Len(lims) : used[lims[j]] <= Cap(PolOf(spec, spec.urls[j]))
